@@ -18,11 +18,11 @@ import abacusnbody.data.compaso_halo_catalog as chc
 
 ID = 'C18'
 BOUNDS = {
-    'quick': 'all 12 caps, each with one ring it = 4*cap mod 11 (every ring 0..10 occurs); in-ring cell ir in [0, 2 it] and azimuth bin in [0, 45) symbolic integers '
+    'quick': 'all 12 caps, each with one ring it = 4*cap mod 11 (every ring 0..10 occurs); pairwise distinct cap signatures; in-ring cell ir in [0, 2 it] and azimuth bin in [0, 45) symbolic integers '
              '(so every valid code of those (cap, ring) families); obligations: unit minor/middle/major, pairwise orthogonality, middle = minor x major',
     'thorough': 'all 12 caps x all 11 rings: every one of the 65340 valid codes belongs to exactly one family',
 }
-OUTSIDE = 'NOT decided (not claimed): that distinct codes give distinct triads, and that the major axes cover all directions to ~4 degrees -- a ' \
+OUTSIDE = 'Distinctness is decided only between caps (pairwise different signatures of the major axis); NOT decided (not claimed): distinctness of codes within one cap, and that the major axes cover all directions to ~4 degrees -- a ' \
           'forall-direction/exists-code statement over transcendental geometry, outside this technique; float64 rounding; numeric values of cos/sin'
 STUBS = ['np.cos / np.sin of the azimuth: fresh reals c, s with c^2 + s^2 = 1, s > 0', 'np.sqrt, np.linalg.norm: non-negative root witnesses',
          'np.floor(np.sqrt(b)) of the in-cap cell index: the ring index of the work item (b is confined to [it^2, (it+1)^2))']
@@ -105,6 +105,46 @@ def body(cap, it):
     dot = lambda a, b: a[0] * b[0] + a[1] * b[1] + a[2] * b[2]
     cross = [mn[1] * mj[2] - mn[2] * mj[1], mn[2] * mj[0] - mn[0] * mj[2], mn[0] * mj[1] - mn[1] * mj[0]]
     c.prove(dot(mj, mj) == 1, 'major axis has unit norm', key='euler:unit-major')
+    # cap signature: which component of the major axis is the largest, which the second, and the sign of the second.
+    # (Within a cap the decoder places zz > |yy| > |xx| with yy of fixed sign; the 12 caps must give 12 different signatures,
+    #  otherwise two caps decode to the same axes -- checked across items in finalize().)
+    # Cap signature.  Before the per-cap table the decoder computes zz = 1/sqrt(1+xx^2+yy^2) > 0, yy = t*zz (t > 0 the
+    # ring's latitude) and xx = r*t*zz (r in (-1,1) the in-ring cell, the only place where `ir` occurs); the table only
+    # permutes them and flips the sign of yy.  Read the placement off the terms (zz: the component that does not mention
+    # ir and is not yy; xx: the one that mentions ir, or is literally 0 on ring 0), let the solver fix the signs, and check
+    # |r| < 1 (solver) and t^2 < 1 (exact rational arithmetic on the ring's constants) so that zz > |yy| > |xx|.  The 12
+    # caps must then have 12 different signatures (finalize), otherwise two caps decode to the same axes.
+    def mentions_ir(e):
+        acc = set()
+        def walk(x):
+            if z3.is_const(x) and x.decl().kind() == z3.Z3_OP_UNINTERPRETED:
+                acc.add(x.decl().name())
+            for ch in x.children():
+                walk(ch)
+        walk(e)
+        return 'ir' in acc or 'code' in acc
+    simp = [z3.simplify(x) for x in mj]
+    xs = [j for j in range(3) if mentions_ir(simp[j]) or (z3.is_rational_value(simp[j]) and simp[j].numerator_as_long() == 0)]
+    rest = [j for j in range(3) if j not in xs]
+    sig = None
+    if len(xs) == 1 and len(rest) == 2:
+        # of the two remaining components one is +zz (a bare positive witness), the other +-t*zz
+        smp = chc._unpack_euler16(real_np.array([(cap * 121 + it * it + min(1, 2 * it)) * 45 + 7], dtype=real_np.uint16))[2][0]
+        a_, b_ = sorted(rest, key=lambda j: -abs(smp[j]))
+        sgn = 1 if smp[b_] > 0 else -1
+        ok1 = c.prove(mj[a_] > 0, 'the largest component of the major axis is positive throughout the family', key='euler:signature')
+        ok2 = c.prove((mj[b_] > 0) if sgn > 0 else (mj[b_] < 0), 'the second component keeps its sign throughout the family', key='euler:signature')
+        ok3 = c.prove(z3.And(2 * ir + 1 > 0, 2 * ir + 1 < 2 * (2 * it + 1)), 'the in-ring coordinate r = (ir+1/2)/(it+1/2) - 1 lies strictly inside (-1, 1)', key='euler:signature')
+        import fractions
+        t0 = fractions.Fraction(2 * it + 1, 22) / core._frac(chc.EULER_NORM)
+        t2 = t0 * t0 * (2 - t0 * t0) / ((1 - t0 * t0) ** 2)
+        ok4 = c.prove(z3.BoolVal(0 < t2 < 1), 'the ring latitude satisfies 0 < t^2 < 1 (so zz > |yy| > |xx|)', key='euler:signature')
+        if ok1 and ok2 and ok3 and ok4:
+            sig = (a_, b_, sgn)
+    else:
+        c.report('violation', f'cannot identify the xx component of the major axis (components mentioning the in-ring cell: {xs})', key='euler:signature')
+    c.extra['sample'] = dict(case, signature=sig)
+
     c.prove(dot(mn, mn) == 1, 'minor axis has unit norm', key='euler:unit-minor')
     c.prove(dot(mn, mj) == 0, 'minor is orthogonal to major', key='euler:orth-minor-major')
     # middle is built as the normalised cross product: handedness and the remaining identities follow from
@@ -118,6 +158,31 @@ def body(cap, it):
     cr = [a[1] * b[2] - a[2] * b[1], a[2] * b[0] - a[0] * b[2], a[0] * b[1] - a[1] * b[0]]
     c.prove(dot(cr, cr) == dot(a, a) * dot(b, b) - dot(a, b) * dot(a, b), 'Lagrange identity |a x b|^2 = |a|^2|b|^2 - (a.b)^2', key='euler:lagrange')
     c.prove(z3.And(dot(cr, a) == 0, dot(cr, b) == 0), 'a x b is orthogonal to a and to b', key='euler:lagrange')
+
+
+def finalize(results):
+    """Different caps must decode to different major axes: their solver-derived signatures must be pairwise distinct
+    (and all rings of one cap must agree)."""
+    sigs = {}
+    for r in results:
+        for smp in r.get('samples', []):
+            if isinstance(smp, dict) and smp.get('signature') is not None:
+                sigs.setdefault(smp['cap'], set()).add(tuple(smp['signature']))
+    events, proved = [], 0
+    bycap = {}
+    for cap, ss in sorted(sigs.items()):
+        if len(ss) != 1:
+            events.append(dict(kind='violation', what=f'cap {cap} has different signatures on different rings: {sorted(ss)}', key='euler:distinct-caps', model={},
+                               info=dict(case=dict(cap=cap, ring=0, other=cap))))
+            continue
+        sg = next(iter(ss))
+        if sg in bycap:
+            events.append(dict(kind='violation', what=f'caps {bycap[sg]} and {cap} decode to major axes with the same signature {sg}: distinct codes give the same triads',
+                               key='euler:distinct-caps', model={}, info=dict(case=dict(cap=cap, ring=0, other=bycap[sg]))))
+        else:
+            bycap[sg] = cap
+            proved += 1
+    return events, proved
 
 
 def items(tier, seed):
@@ -164,6 +229,15 @@ from abacusnbody.data.compaso_halo_catalog import _unpack_euler16
 case = {i!r}
 m = {m!r}
 cap, it = case['cap'], case['ring']
+if 'other' in case:
+    allc = np.arange(65340, dtype=np.uint16)
+    mn_, md_, mj_ = _unpack_euler16(allc)
+    a, b = case['other'], cap
+    A = np.round(np.hstack([mn_, md_, mj_])[a * 5445:(a + 1) * 5445], 9); B = np.round(np.hstack([mn_, md_, mj_])[b * 5445:(b + 1) * 5445], 9)
+    dup = len(set(map(tuple, A)) & set(map(tuple, B))) if a != b else 0
+    ntri = len(set(map(tuple, np.round(np.hstack([mn_, md_, mj_]), 9))))
+    print('caps', a, b, 'share', dup, 'triads; distinct triads over all 65340 codes:', ntri)
+    sys.exit(1 if (dup or ntri != 65340) else 0)
 codes = np.array([(cap * 121 + it * it + ir) * 45 + iaz for ir in range(2 * it + 1) for iaz in range(45)], dtype=np.uint16)
 minor, middle, major = _unpack_euler16(codes)
 bad = []
